@@ -17,6 +17,22 @@ impl<'a> core::ops::Deref for Cow<'a, str> {
     }
 }
 
+// R9: `String: From<Cow<str>>` for the stub Cow (std: the owned text, or a copy of the borrowed text)
+pub uninterp spec fn string_of_cow<'a>(c: Cow<'a, str>) -> String;
+#[verifier::external_body]
+pub broadcast proof fn axiom_string_of_cow<'a>(c: Cow<'a, str>)
+    ensures (#[trigger] string_of_cow(c))@ == c@
+{ }
+impl<'a> vstd::std_specs::convert::FromSpecImpl<Cow<'a, str>> for String {
+    open spec fn obeys_from_spec() -> bool { true }
+    open spec fn from_spec(c: Cow<'a, str>) -> String { string_of_cow(c) }
+}
+impl<'a> From<Cow<'a, str>> for String {
+    #[verifier::external_body]
+    fn from(c: Cow<'a, str>) -> (r: String)
+    { match c { Cow::Borrowed(b) => b.to_string(), Cow::Owned(o) => o } }
+}
+
 // ---- vocabulary for package types (written from C02/C04/C05: letters, digits, '.', '+', '-'; non-empty) ----
 pub open spec fn type_char(c: char) -> bool { ascii_alnum_c(c) || c == '.' || c == '+' || c == '-' }
 pub open spec fn valid_type(s: Seq<char>) -> bool { s.len() > 0 && forall|i: int| 0 <= i < s.len() ==> type_char(#[trigger] s[i]) }
